@@ -191,7 +191,8 @@ def is_background_write(cmd):
     if list(u.keys()) != ["$set"]:
         return False
     keys = list(u["$set"].keys())
-    return len(keys) > 0 and all(k == "adf" or k.startswith("acs_per_strategy.") for k in keys)
+    # (a result write may also set the whole record `acs_per_strategy` instead of one field of it)
+    return len(keys) > 0 and all(k == "adf" or k == "acs_per_strategy" or k.startswith("acs_per_strategy.") for k in keys)
 
 
 class Pending:
